@@ -16,8 +16,8 @@ import (
 
 type vEvent struct {
 	Ev string `json:"ev"`
-	T  int    `json:"t,omitempty"`
-	V  int    `json:"v,omitempty"`
+	T  int    `json:"t"`
+	V  int    `json:"v"`
 }
 
 // verdictSchedules enumerates the orders of events for k transfers of which the
@@ -54,14 +54,14 @@ func verdictSchedules(k int) [][]vEvent {
 	return out
 }
 
-var vsCount int
+// variant of the next schedule run: per-recipient LMTP backend, stale deliveries panic
+var vsPerRcpt, vsPanic bool
 
 // runVerdictSchedule replays one schedule with a gated backend; returns the
 // recorded trace (reply events carry the verdict the server actually reported).
 func runVerdictSchedule(sched []vEvent, lmtp bool, abortWith string) ([]vEvent, string, error) {
 	// (LMTP: the plain backend and the per-recipient backend alternate)
-	vsCount++
-	srv := drv.Start(drv.Cfg{LMTP: lmtp, LMTPBackend: lmtp && vsCount%2 == 0, MaxLine: 2000})
+	srv := drv.Start(drv.Cfg{LMTP: lmtp, LMTPBackend: lmtp && vsPerRcpt, MaxLine: 2000})
 	defer srv.Stop()
 	cn, err := srv.Dial()
 	if err != nil {
@@ -79,7 +79,7 @@ func runVerdictSchedule(sched []vEvent, lmtp bool, abortWith string) ([]vEvent, 
 	be.Lock()
 	for t := 1; t <= k; t++ {
 		plan := rec.DataPlan{Err: fmt.Errorf("verdict-%d", t), GateReturn: fmt.Sprintf("g%d", t)}
-		if t < k && vsCount%3 == 0 {
+		if t < k && vsPanic {
 			// the backend of an aborted transfer does not return late, it PANICS late:
 			// that, too, is nobody's business but its own transfer's
 			plan.Panic = true
@@ -207,10 +207,16 @@ func verdictFamily(run *evid.Run) (states int64, nsched int) {
 	var scheds [][]vEvent
 	for _, k := range []int{2, 3} {
 		for si, s := range verdictSchedules(k) {
-			for _, lmtp := range []bool{false, true} {
-				if lmtp && si%2 == 1 {
-					continue
+			// variants: SMTP; LMTP with the plain and the per-recipient backend; the
+			// backends of aborted transfers returning late or panicking late
+			type variant struct{ lmtp, perRcpt, panics bool }
+			vars := []variant{{false, false, false}, {true, false, false}, {true, true, false}, {true, true, true}, {false, false, true}}
+			for vi, v := range vars {
+				if vi > 0 && (si+vi)%2 == 1 {
+					continue // every other schedule for the variants beyond plain SMTP
 				}
+				lmtp := v.lmtp
+				vsPerRcpt, vsPanic = v.perRcpt, v.panics
 				abortWith := []string{"rset", "greet"}[si%2]
 				recd, msg, err := runVerdictSchedule(s, lmtp, abortWith)
 				nsched++
